@@ -571,7 +571,7 @@ func main() {
 			if tier == "thorough" {
 				return 25 * time.Minute
 			}
-			return 150 * time.Second
+			return 300 * time.Second
 		},
 		Rule: "for every scenario: every byte offset k of the healthy server->client transcript (hello included) x {EOF, read error, 0xFF garbage from k on, byte k XOR 0x01 / 0x80 (thorough: also 0x20) for five of the scenarios (thorough: all)}, or every client write index x {fails once, fails from then on}, chosen as a free environment choice; for each, every thread schedule within the delay bound; distinct = distinct (scenario, outcome) pairs",
 		Assumptions: []string{
